@@ -83,6 +83,35 @@ def binOp (op : BinOp) (x y : ENum) : Res ENum :=
         | .ub k => .ub k
         | _ => .ill "unexpected"
 
+
+/-- the same with a pluggable representation operator: `rop` is the operator of the
+representation type (the built-in one for plain integers, the rounding one under a rounding tag) -/
+def binOpWith (rop : BinOp → TV → TV → Res TV) (op : BinOp) (x y : ENum) : Res ENum :=
+  match policy op x.digits x.narrowest.signed y.digits y.narrowest.signed with
+  | none => .ill "no elastic policy for this operator"
+  | some (d, sg) =>
+    -- tag narrowest: signedness from the policy, width of the wider narrowest
+    let tagNarrowest : IntTy := ⟨max x.narrowest.bits y.narrowest.bits, sg⟩
+    match repTy d tagNarrowest with
+    | none => .ill "result digits exceed the widest integer"
+    | some resultRep =>
+      match setDigits resultRep.signed (operandDigits resultRep x.digits y.digits) with
+      | none => .ill "operand digits exceed the widest integer"
+      | some operandRep =>
+        let a : TV := convert operandRep (operandRep, x.value)
+        let b : TV := convert operandRep (operandRep, y.value)
+        match rop op a b with
+        | .ok v =>
+          -- returned wrapper: width of the left narrowest, signedness of the built-in result
+          let n : IntTy := ⟨x.narrowest.bits, v.1.signed⟩
+          match repTy d n with
+          | none => .ill "result digits exceed the widest integer"
+          | some finalRep => .ok ⟨d, n, finalRep.wrap v.2⟩
+        | .ub k => .ub k
+        | _ => .ill "unexpected"
+
+theorem binOp_eq_binOpWith (op : BinOp) (x y : ENum) : binOp op x y = binOpWith cBin op x y := rfl
+
 /-- unary minus: `elastic_integer<D, signed narrowest>` -/
 def neg (x : ENum) : Res ENum :=
   let n : IntTy := ⟨x.narrowest.bits, true⟩
